@@ -1195,6 +1195,10 @@ func (ctx Ctx) derefExpr(e ast.Expr) coq.Expr {
 			coq.StructDesc(info.name),
 			ctx.expr(e))
 	}
+	if _, ok := ctx.typeOf(e).(*types.Pointer); !ok {
+		ctx.unsupported(e, "dereference of non-pointer type %v", ctx.typeOf(e))
+		return nil
+	}
 	return coq.DerefExpr{
 		X:  ctx.expr(e),
 		Ty: ctx.coqTypeOfType(e, ptrElem(ctx.typeOf(e))),
